@@ -1019,6 +1019,11 @@ fn gen_c13_plan(r: &mut Rng, kind: u16) -> Plan {
         act: Act::None,
     });
     let mut p = Plan::basic(cmds);
+    if r.chance(1, 3) {
+        // whatever the client announced about itself (character set, capabilities,
+        // max_packet_size) does not change the bytes of an error message
+        p.handshake = gen_handshake(r);
+    }
     p.reads = gen_reads(r);
     p.arrival = gen_arrival(r);
     p.writes = gen_writes(r, true);
